@@ -34,7 +34,7 @@ Classical == {29, 23, 24, 25}
 Base == [sc |-> 0, mode |-> "compliant", id |-> "", sni |-> "example.com", ver |-> 0, vmin |-> 0, vmax |-> 0, suite |-> 0, group |-> 0,
          cert |-> "ecdsa", alpn |-> <<>>, force_suite |-> 0, force_group |-> 0, force_alpn |-> "", hrr_cookie |-> 0,
          legacy_only |-> FALSE, canary |-> 0, sid_echo |-> "", compression |-> 0, psk_index |-> 0, hrr_group |-> 0,
-         omit |-> TRUE, remove_sni |-> FALSE, ekm |-> 0,
+         omit |-> TRUE, remove_sni |-> FALSE, ekm |-> 0, kx_share |-> "", kx_secret |-> "", kx_kem |-> "",
          alps_cp |-> 0, alps12 |-> FALSE, client_alps |-> "", alps_settings |-> <<>>, client_auth |-> 0, resume |-> FALSE]
 
 \* ---- the compliant grid (C10, C11, C18): every choice the hello offers and the server can make
@@ -114,7 +114,17 @@ C22Set == UNION {{[Adv(x) EXCEPT !.alps_cp = cp, !.client_alps = cm, !.alpn = a,
                      a \in {<<"h2">>, <<"http/1.1">>, <<>>}, st \in {SRVS, <<>>}}
                  : x \in {y \in Reps : Offers[y.id].alps # {}}}
 
-Scenarios == CASE Mode = "c10" -> C10Set [] Mode = "c12" -> C12Set [] Mode = "c13" -> C13Set [] Mode = "c17" -> C17Set [] Mode = "c22" -> C22Set
+\* ---- hybrid groups the in-tree server lacks (C18): the test server's key-exchange hook answers the share by the
+\*      layout of the scenario; the layout the drafts prescribe is "compliant", every other combination of secret order
+\*      and KEM variant is a server the client cannot share keys with
+C18KxSet == UNION {{[Base EXCEPT !.id = id, !.ver = 772, !.suite = s, !.group = g, !.kx_share = HybridLayout(g).share,
+                                 !.kx_secret = sec, !.kx_kem = kem,
+                                 !.mode = IF sec = HybridLayout(g).secret /\ kem = HybridLayout(g).kem THEN "compliant" ELSE "adversarial"] :
+                      g \in Offers[id].shares \cap SpecServerGroups, s \in Offers[id].suites \cap Impl13,
+                      sec \in {"pq-first", "classical-first"}, kem \in {"mlkem768", "kyber768r3"}}
+                   : id \in IDs}
+
+Scenarios == CASE Mode = "c18kx" -> C18KxSet [] Mode = "c10" -> C10Set [] Mode = "c12" -> C12Set [] Mode = "c13" -> C13Set [] Mode = "c17" -> C17Set [] Mode = "c22" -> C22Set
 
 \* ------------------------------------------------------------ abstract server messages
 X(t, b) == [bad |-> FALSE, type |-> t, body |-> b]
@@ -171,7 +181,9 @@ ServerSecond ==
 \* EncryptedExtensions (TLS 1.3) then the rest of the flight; certificates are valid in this family
 ClientFinish ==
   /\ phase = "sh"
-  /\ LET m == IF must # "" THEN must ELSE IF SHVersion(sh) = 772 THEN CheckEE(o, MkEE(scn, o)) ELSE "" IN
+  /\ LET m == IF must # "" THEN must
+              ELSE IF SHVersion(sh) = 772 /\ CheckKx(scn, SHGroup(sh)) # "" THEN CheckKx(scn, SHGroup(sh))
+              ELSE IF SHVersion(sh) = 772 THEN CheckEE(o, MkEE(scn, o)) ELSE "" IN
      /\ must' = m /\ phase' = (IF m = "" THEN "done" ELSE "aborted")
   /\ UNCHANGED <<scn, o, hrr, hrrSeen, sh>>
 Next == ServerFirst \/ ClientCH2 \/ ServerSecond \/ ClientFinish
@@ -195,6 +207,8 @@ DeviationDetected == (Mode = "c12" /\ Terminal) => phase # "done"
 \* C17: a valid HRR leads to completion
 HRRCompletes == (Mode = "c17" /\ Terminal) => (phase = "done" /\ hrrSeen)
 \* C22: application settings are accepted exactly when TLS 1.3 and an ALPN protocol were negotiated
+\* C18, hybrid group of the spec server: the client shares keys exactly with the layout the drafts prescribe
+KxRule == (Mode = "c18kx" /\ Terminal) => (phase = "done" <=> scn.mode = "compliant")
 ALPSRule == (Mode = "c22" /\ Terminal /\ SHVersion(sh) = 772) => (phase = "done" <=> SrvALPN(scn, o) \notin {<<>>, <<0>>})
 
 Emit == Terminal => PrintT(<<"SCN", ToJson([scn EXCEPT !.sc = 0] @@ [expect |-> phase, why |-> must])>>)
